@@ -209,18 +209,50 @@ Proof.
     + rewrite Z.gtb_ltb in C. apply Z.ltb_ge in C. split; [exact C|reflexivity].
 Qed.
 
+(* ------------------------------------------------------------------ backslashreplace *)
+Lemma scalarb_ascii c : 0 <= c < 128 -> scalarb c = true.
+Proof.
+  intros H. unfold scalarb. apply andb_true_iff. split; [apply andb_true_iff; split; [apply Z.leb_le|apply Z.ltb_lt]; lia|].
+  apply negb_true_iff. apply andb_false_iff. left. apply Z.leb_gt. lia.
+Qed.
+
+Lemma hexdigit_ascii d : 0 <= d < 16 -> 0 <= hexdigit d < 128.
+Proof. intros H. unfold hexdigit. destruct (d <? 10); lia. Qed.
+
+Definition wf_text (t : text) : Prop := forallb scalarb t = true.
+
+Lemma esc1_wf c : wf_text (esc1 c).
+Proof.
+  unfold esc1, wf_text. destruct (scalarb c) eqn:E; cbn [forallb]; [rewrite E; reflexivity|].
+  rewrite !scalarb_ascii; try reflexivity; try lia; apply hexdigit_ascii; apply Z.mod_pos_bound; lia.
+Qed.
+
+(* whatever the text, its escaped form is well-formed: encoding with backslashreplace cannot fail *)
+Lemma escape_wf t : wf_text (escape t).
+Proof.
+  unfold escape, wf_text. induction t as [|c t IH]; [reflexivity|].
+  change (flat_map esc1 (c :: t)) with (esc1 c ++ flat_map esc1 t). rewrite forallb_app, IH.
+  pose proof (esc1_wf c) as W. unfold wf_text in W. rewrite W. reflexivity.
+Qed.
+
+(* and ordinary text is not changed by it *)
+Lemma escape_id t : wf_text t -> escape t = t.
+Proof.
+  unfold escape, wf_text. induction t as [|c t IH]; intros H; [reflexivity|]. apply forallb_cons in H as [H1 H2].
+  change (flat_map esc1 (c :: t)) with (esc1 c ++ flat_map esc1 t). rewrite IH by exact H2.
+  unfold esc1. rewrite H1. reflexivity.
+Qed.
+
 (* ------------------------------------------------------------------ getStateToCopy *)
 (* what one transmitted field is, relative to the original text *)
 Definition field_of (orig : text) (lim : Z) (b : list Z) : Prop :=
   (b = utf8 orig /\ blen (utf8 orig) <= lim) \/
   (lim < blen (utf8 orig) /\ exists p rest, orig = p ++ rest /\ rest <> [] /\ b = utf8 (p ++ dots)).
 
-Definition wf_text (t : text) : Prop := forallb scalarb t = true.
-
-Lemma trunc_field_spec t lim : 3 < lim -> wf_text t ->
-  exists b, trunc_field t lim = Ok b /\ blen b <= lim /\ field_of t lim b.
+Lemma trunc_wf t lim : 3 < lim -> wf_text t ->
+  exists b, truncate (utf8 t) lim = Ok b /\ blen b <= lim /\ field_of t lim b.
 Proof.
-  intros L V. unfold trunc_field, encode_text. rewrite V.
+  intros L V.
   destruct (truncate_fits (utf8 t) lim L) as (r & R & F).
   exists r. split; [exact R|]. split; [exact F|].
   destruct (truncate_text t lim L V) as [[A B]|(A & p & rest & E & NE & B & _)]; rewrite B in R; inversion R; subst r.
@@ -228,8 +260,12 @@ Proof.
   - right. split; [exact A|]. exists p, rest. repeat split; assumption.
 Qed.
 
-Lemma trunc_field_unencodable t lim : forallb scalarb t = false -> trunc_field t lim = Exc "UnicodeEncodeError"%string.
-Proof. intros V. unfold trunc_field, encode_text. rewrite V. reflexivity. Qed.
+(* with the error handler the source uses, EVERY text gets through: the field is (a truncation of) its escaped form *)
+Lemma trunc_field_spec t lim : 3 < lim ->
+  exists b, trunc_field t lim = Ok b /\ blen b <= lim /\ field_of (escape t) lim b.
+Proof.
+  intros L. unfold trunc_field, encode_text, text_encode_errors. apply trunc_wf; [exact L|apply escape_wf].
+Qed.
 
 Lemma forallb_firstn {A} (f : A -> bool) n l : forallb f l = true -> forallb f (firstn n l) = true.
 Proof.
@@ -238,44 +274,23 @@ Proof.
   rewrite H1. cbn. apply IH. exact H2.
 Qed.
 
-Lemma forallb_skipn {A} (f : A -> bool) n l : forallb f l = true -> forallb f (skipn n l) = true.
-Proof.
-  revert n. induction l as [|x l IH]; intros n H; [rewrite skipn_nil; reflexivity|].
-  destruct n; [exact H|]. cbn [skipn forallb] in *. apply andb_true_iff in H as [H1 H2]. apply IH. exact H2.
-Qed.
-
-Lemma wf_py_slice (t : text) lo hi : wf_text t -> wf_text (py_slice t lo hi).
-Proof. intros H. unfold py_slice, wf_text. apply forallb_firstn. apply forallb_skipn. exact H. Qed.
-
-Lemma wf_elide t : wf_text t -> wf_text (elide t).
-Proof.
-  intros H. unfold elide. destruct (Z.of_nat (List.length t) >? elide_threshold); [|exact H].
-  unfold wf_text. rewrite !forallb_app. rewrite (wf_py_slice t _ _ H), (wf_py_slice t _ _ H). reflexivity.
-Qed.
-
-Lemma wf_default_traceback : wf_text default_traceback.
-Proof. vm_compute. reflexivity. Qed.
-
 Lemma bytestring_ok_of_le lim b : blen b <= lim -> bytestring_ok lim b = true.
 Proof.
   intros H. unfold bytestring_ok, token_size_rejects, bytestring_object_rejects, rejects.
   rewrite Z.gtb_ltb. destruct (lim <? blen b) eqn:E; [apply Z.ltb_lt in E; lia|reflexivity].
 Qed.
 
-Lemma map_res_spec (ps : list text) lim : 3 < lim -> Forall wf_text ps ->
+Lemma map_res_spec (ps : list text) lim : 3 < lim ->
   exists bs, map_res (fun p => trunc_field p lim) ps = Ok bs /\
-             Forall2 (fun p b => blen b <= lim /\ field_of p lim b) ps bs.
+             Forall2 (fun p b => blen b <= lim /\ field_of (escape p) lim b) ps bs.
 Proof.
-  intros L. induction 1 as [|p ps V _ IH]; [exists []; split; [reflexivity|constructor]|].
-  destruct IH as (bs & E & F). destruct (trunc_field_spec p lim L V) as (b & Eb & Fb).
+  intros L. induction ps as [|p ps IH]; [exists []; split; [reflexivity|constructor]|].
+  destruct IH as (bs & E & F). destruct (trunc_field_spec p lim L) as (b & Eb & Fb).
   exists (b :: bs). cbn [map_res]. rewrite Eb, E. split; [reflexivity|]. constructor; assumption.
 Qed.
 
-Definition wf_exc (unsafe : bool) (e : exc) (v : text) : Prop :=
-  e_str e = Ok v /\ wf_text v /\ wf_text (e_type e) /\ (unsafe = true -> wf_text (e_stack e)) /\ Forall wf_text (e_parents e).
-
 Lemma parents_ok (l : list text) ps :
-  Forall2 (fun (p : text) (b : list Z) => blen b <= trunc_limit_parents /\ field_of p trunc_limit_parents b) l ps ->
+  Forall2 (fun (p : text) (b : list Z) => blen b <= trunc_limit_parents /\ field_of (escape p) trunc_limit_parents b) l ps ->
   forallb (bytestring_ok fc_limit_parents) ps = true.
 Proof.
   induction 1 as [|p b l l' [Lb _] _ IH]; [reflexivity|].
@@ -284,25 +299,30 @@ Proof.
 Qed.
 
 Lemma parents_fields (l : list text) ps :
-  Forall2 (fun (p : text) (b : list Z) => blen b <= trunc_limit_parents /\ field_of p trunc_limit_parents b) l ps ->
-  Forall2 (fun p b => field_of p trunc_limit_parents b) l ps.
+  Forall2 (fun (p : text) (b : list Z) => blen b <= trunc_limit_parents /\ field_of (escape p) trunc_limit_parents b) l ps ->
+  Forall2 (fun p b => field_of (escape p) trunc_limit_parents b) l ps.
 Proof. induction 1 as [|p b l l' [_ Fb] _ IH]; constructor; assumption. Qed.
 
-(* C10_failure_fits *)
-Theorem failure_fits unsafe e v : wf_exc unsafe e v ->
+(* the text that becomes state['value']: with reflect.safe_str there always is one *)
+Definition rendered (e : exc) : text := match e_str e with Ok v => v | Exc _ => e_fallback e end.
+
+Lemma render_total e : render e = Ok (rendered e).
+Proof. reflexivity. Qed.
+
+(* C10_failure_fits: no hypothesis on the exception at all *)
+Theorem failure_fits unsafe e :
   exists s, get_state unsafe e = Ok s /\ failure_constraint_ok s = true /\
-    field_of v trunc_limit_value (s_value s) /\
-    field_of (e_type e) trunc_limit_type (s_type s) /\
-    field_of (elide (if unsafe then e_stack e else default_traceback)) trunc_limit_traceback (s_traceback s) /\
-    Forall2 (fun p b => field_of p trunc_limit_parents b) (e_parents e) (s_parents s).
+    field_of (escape (rendered e)) trunc_limit_value (s_value s) /\
+    field_of (escape (e_type e)) trunc_limit_type (s_type s) /\
+    field_of (escape (elide (if unsafe then e_stack e else default_traceback))) trunc_limit_traceback (s_traceback s) /\
+    Forall2 (fun p b => field_of (escape p) trunc_limit_parents b) (e_parents e) (s_parents s).
 Proof.
-  intros (Es & Vv & Vt & Vs & Vp). unfold get_state. rewrite Es.
-  destruct (trunc_field_spec v trunc_limit_value ltac:(vm_compute; reflexivity) Vv) as (bv & E1 & L1 & F1). rewrite E1.
-  destruct (trunc_field_spec (e_type e) trunc_limit_type ltac:(vm_compute; reflexivity) Vt) as (bt & E2 & L2 & F2). rewrite E2.
-  assert (Vtb : wf_text (elide (if unsafe then e_stack e else default_traceback))).
-  { apply wf_elide. destruct unsafe; [apply Vs; reflexivity|apply wf_default_traceback]. }
-  destruct (trunc_field_spec _ trunc_limit_traceback ltac:(vm_compute; reflexivity) Vtb) as (btb & E3 & L3 & F3). rewrite E3.
-  destruct (map_res_spec (e_parents e) trunc_limit_parents ltac:(vm_compute; reflexivity) Vp) as (ps & E4 & F4). rewrite E4.
+  unfold get_state. rewrite render_total.
+  destruct (trunc_field_spec (rendered e) trunc_limit_value ltac:(vm_compute; reflexivity)) as (bv & E1 & L1 & F1). rewrite E1.
+  destruct (trunc_field_spec (e_type e) trunc_limit_type ltac:(vm_compute; reflexivity)) as (bt & E2 & L2 & F2). rewrite E2.
+  destruct (trunc_field_spec (elide (if unsafe then e_stack e else default_traceback)) trunc_limit_traceback ltac:(vm_compute; reflexivity))
+    as (btb & E3 & L3 & F3). rewrite E3.
+  destruct (map_res_spec (e_parents e) trunc_limit_parents ltac:(vm_compute; reflexivity)) as (ps & E4 & F4). rewrite E4.
   eexists. split; [reflexivity|]. cbn [s_type s_value s_traceback s_parents].
   split; [|split; [exact F1|split; [exact F2|split; [exact F3|]]]].
   - unfold failure_constraint_ok. cbn [s_type s_value s_traceback s_parents].
@@ -322,29 +342,17 @@ Proof.
     rewrite (forallb_app_l _ _ _ V). reflexivity.
 Qed.
 
-(* the exception's own str() raising, or text that UTF-8 cannot encode, make getStateToCopy itself raise
-   (inside the slicer's generator: a non-Violation exception in Banana.produce) *)
-Theorem get_state_str_raises unsafe e t : e_str e = Exc t -> get_state unsafe e = Exc t.
-Proof. intros H. unfold get_state. rewrite H. reflexivity. Qed.
-
-Theorem get_state_unencodable unsafe e v : e_str e = Ok v -> forallb scalarb v = false ->
-  get_state unsafe e = Exc "UnicodeEncodeError"%string.
-Proof. intros H V. unfold get_state. rewrite H. rewrite trunc_field_unencodable by exact V. reflexivity. Qed.
-
-Definition lone_surrogate_exc : exc :=
-  {| e_type := [86]; e_str := Ok [97; 55296]; e_stack := []; e_parents := [[86]] |}.
-
-Theorem failure_total_refuted : exists unsafe e v, e_str e = Ok v /\ get_state unsafe e = Exc "UnicodeEncodeError"%string.
-Proof. exists false, lone_surrogate_exc, [97; 55296]. split; reflexivity. Qed.
-
 (* faithful delivery: the caller sees the transmitted fields, wrapped iff exception types are hidden *)
 Theorem deliver_spec expose s :
   (expose = true -> deliver expose s = Copied s) /\ (expose = false -> deliver expose s = Wrapped s).
 Proof. split; intros ->; reflexivity. Qed.
 
 (* ---- non-vacuity *)
-Example ex_wf : wf_exc true {| e_type := [86; 233]; e_str := Ok [233; 128512]; e_stack := [10]; e_parents := [[86; 233]; [111]] |} [233; 128512].
-Proof. unfold wf_exc. repeat split; try reflexivity. repeat constructor. Qed.
+Example ex_surrogate_and_badstr :
+  get_state false {| e_type := [86]; e_str := Exc "RuntimeError"%string; e_fallback := [60; 56580; 62]; e_stack := []; e_parents := [[86; 55296]] |}
+  = Ok {| s_type := [86]; s_value := [60; 92; 117; 100; 100; 48; 52; 62]; s_traceback := utf8 default_traceback;
+          s_parents := [[86; 92; 117; 100; 56; 48; 48]] |}.
+Proof. vm_compute. reflexivity. Qed.
 
 Example ex_truncated :
   truncate (utf8 (repeat 233 1000)) 1000 = Ok (utf8 (repeat 233 498 ++ dots)).
